@@ -221,6 +221,7 @@ inline void check_unknown(
 }
 
 struct F2 : F0 {}; // never registered
+struct F3 final : F0 {}; // never registered, and final
 
 inline void check_final(std::vector<Viol>& out) {
     using namespace yorel::yomm2;
@@ -293,6 +294,42 @@ inline void check_final(std::vector<Viol>& out) {
         expect_accepted("const shared_ptr<F0>& owning F0", [&] { (void)VSP::final(cs0); });
         expect_accepted("shared_ptr<F0>&& owning F0", [&] { (void)VSP::final(std::shared_ptr<F0>(s0)); });
     }
+    // virtual_ptr construction from an object of an unregistered class that
+    // is declared final: exact type, through a base reference, shared
+    {
+        auto expect_unknown = [&](const char* form, auto&& make) {
+            hx::g_err.reset();
+            bool threw = false;
+            int before = hx::g_bodies_run;
+            try {
+                make();
+            } catch (hx::Thrown&) {
+                threw = true;
+            }
+            bool ok = false;
+            if (threw && hx::g_err)
+                if (auto e = std::get_if<unknown_class_error>(&*hx::g_err))
+                    ok = e->type == (type_id)&typeid(F3);
+            if (!ok || hx::g_bodies_run != before)
+                out.push_back(
+                    {"unknown_final_class_not_reported",
+                     std::string("virtual_ptr(") + form + ") threw=" + std::to_string(threw) +
+                         " error=" + err_text(hx::g_err)});
+        };
+        F3 f3;
+        F0& f3_as_f0 = f3;
+        expect_unknown("unregistered final F3, exact type", [&] { (void)virtual_ptr<F3, hx::P>(f3); });
+        expect_unknown("unregistered final F3 converted to virtual_ptr<F0>",
+                       [&] { (void)virtual_ptr<F0, hx::P>(f3); });
+        expect_unknown("unregistered final F3 through F0&",
+                       [&] { (void)virtual_ptr<F0, hx::P>(f3_as_f0); });
+        expect_unknown("shared_ptr to unregistered final F3", [&] {
+            (void)virtual_ptr<std::shared_ptr<F3>, hx::P>(std::make_shared<F3>());
+        });
+        std::shared_ptr<F0> sp3 = std::make_shared<F3>();
+        expect_unknown("shared_ptr<F0> to unregistered final F3",
+                       [&] { (void)virtual_ptr<std::shared_ptr<F0>, hx::P>(sp3); });
+    }
     hx::P::classes.clear();
 }
 
@@ -328,7 +365,7 @@ inline int unknown_main() {
             if (run::g_gate.take(none)) {
                 std::vector<Viol> v;
                 check_final(v);
-                COUNT("final_checks", 12);
+                COUNT("final_checks", 17);
                 for (auto& x : v)
                     run::candidate(x.kind.c_str(), "P 0 | A 0 | R | M", x.detail);
             }
